@@ -352,6 +352,7 @@ func (n *Node) boot() {
 		fail("start", err)
 		return
 	}
+	rt.ReleaseLineage() // race builds: what the environment starts from now on is ordered after this initialisation
 	n.Up = true
 	if n.Flavor == "lnd" {
 		n.inboxEv = rt.NewEvent("inbox")
